@@ -76,14 +76,52 @@ def run(repo, R):
     report(R, f, findings)
     if ex is not None:
         R.floor("Se", nse, 4, "moment-order recursion stores")
-    # argument checks dominate the kernel call
+    # argument checks dominate the kernel call: the validation statements before the first recursion call are interpreted (case
+    # analysis, gbsa/cases.py) on stand-in arguments described by the attributes they look at; they must raise exactly for the
+    # arguments that are not a 3-vector / an (N, 3) integer array
+    from .. import cases
+    import itertools as _it
     fn = f.node
     first_call = min([n.lineno for n in ast.walk(fn) if isinstance(n, ast.Call) and ast.unparse(n.func).startswith("_compute")] or [0])
-    guards = [st for st in fn.body if isinstance(st, ast.If) and terminates(st.body) and isinstance(st.body[-1], ast.Raise)]
-    texts = " ".join(ast.unparse(g.test) for g in guards if g.lineno < first_call)
-    R.check("moment_coord" in texts and "moment_orders" in texts and "dtype == int" in texts.replace("moment_orders.dtype", "dtype"), "GUARD", f.site,
-            "moment_coord / moment_orders validated before use",
-            "the origin (3-vector) and the order table (N x 3 integer array) are no longer validated before the recursion", where=f.where())
+    guards = [st for st in fn.body if isinstance(st, ast.If) and terminates(st.body) and isinstance(st.body[-1], ast.Raise) and st.lineno < first_call
+              and not st.orelse and ("moment_coord" in ast.unparse(st.test) or "moment_orders" in ast.unparse(st.test))]
+    if not guards:
+        R.fail("GUARD", f.site, "moment_coord / moment_orders validated before use",
+               "the origin (3-vector) and the order table (N x 3 integer array) are no longer validated before the recursion", where=f.where())
+    else:
+        def outcome(env):
+            try:
+                cases.run(guards, dict(env))
+            except cases.Raised:
+                return "raise"
+            except cases.Unmodelled as ex:
+                raise AnalysisError("GUARD", f"the argument validation uses a construct outside the case-analysis fragment: {ex}", f.where(guards[0]))
+            return "ok"
+        good_coord = cases.Fake("ndarray", ndim=1, size=3, shape=(3,), dtype="dtype:float")
+        good_orders = cases.Fake("ndarray", ndim=2, size=6, shape=(2, 3), dtype="dtype:int")
+        bad = []
+        coords = [("a list", cases.Fake("other"), False)]
+        for nd, sz in _it.product((1, 2), (2, 3, 4)):
+            coords.append((f"ndarray ndim={nd} size={sz}", cases.Fake("ndarray", ndim=nd, size=sz, shape=(sz,) if nd == 1 else (1, sz), dtype="dtype:float"), nd == 1 and sz == 3))
+        orders = [("a list", cases.Fake("other"), False)]
+        for nd, cols, dt in _it.product((1, 2, 3), (2, 3), ("int", "float")):
+            shp = {1: (cols,), 2: (2, cols), 3: (2, cols, 1)}[nd]
+            orders.append((f"ndarray ndim={nd} columns={cols} dtype={dt}", cases.Fake("ndarray", ndim=nd, size=2 * cols, shape=shp, dtype="dtype:" + dt),
+                           nd == 2 and cols == 3 and dt == "int"))
+        n_cases = 0
+        for label, val, valid in coords:
+            n_cases += 1
+            got = outcome({"moment_coord": val, "moment_orders": good_orders})
+            if (got == "ok") != valid:
+                bad.append(f"moment_coord = {label}: " + ("accepted" if got == "ok" else "rejected"))
+        for label, val, valid in orders:
+            n_cases += 1
+            got = outcome({"moment_coord": good_coord, "moment_orders": val})
+            if (got == "ok") != valid:
+                bad.append(f"moment_orders = {label}: " + ("accepted" if got == "ok" else "rejected"))
+        R.check(not bad, "GUARD", f.site, f"moment_coord / moment_orders validated before use ({n_cases} argument kinds)",
+                "the validation before the recursion does not accept exactly a 3-vector origin and an (N, 3) integer order table: " + "; ".join(bad[:4]),
+                where=f.where(guards[0]), expected="raise for every other kind of argument", found=bad[:6])
     R.assumptions += ["Obara-Saika recurrence for multipole moments (Helgaker 9.3.3)", "assembly (C09) leaves trailing kernel axes untouched and last"]
     return ("STENCIL + AXTYPE on the moment kernel chain with a symbolic origin and a symbolic order table: the eight stores that raise "
             "the moment order are compared coefficient by coefficient with the Obara-Saika moment recurrence (coupling to both angular "
